@@ -91,3 +91,20 @@ Definition x86_choice (c : cpu) : backend :=
   match c with HasAvx2 => BAvx2 | Sse2Only => BSse2 | NoSimd => BSwar end.
 
 End Wrap.
+
+(* The raw-pointer forms find_raw / rfind_raw / count_raw(start, end) of the One/Two/Three searchers, with
+   start = base + so and end = base + eo inside a buffer h at address a: `if start >= end { return None }`
+   (count: 0) is the first line of every one of them, then the search runs on [start, end) and the returned
+   pointer is inside that range.  Loads are reported relative to the range (the hooks register it). *)
+Definition raw_range (h : list N) (so eo : nat) : list N := firstn (eo - so) (skipn so h).
+
+Definition backend_find_raw (ns : list N) (a : nat) (h : list N) (so eo : nat) (b : backend) : M (option nat) :=
+  if eo <=? so then ret None
+  else r <- backend_find ns (a + so) (raw_range h so eo) b;; ret (option_map (fun i => so + i) r).
+
+Definition backend_rfind_raw (ns : list N) (a : nat) (h : list N) (so eo : nat) (b : backend) : M (option nat) :=
+  if eo <=? so then ret None
+  else r <- backend_rfind ns (a + so) (raw_range h so eo) b;; ret (option_map (fun i => so + i) r).
+
+Definition backend_count_raw (ns : list N) (a : nat) (h : list N) (so eo : nat) (b : backend) : M nat :=
+  if eo <=? so then ret 0 else backend_count ns (a + so) (raw_range h so eo) b.
